@@ -112,12 +112,17 @@ def _gridlog(a):
     return 'map qz (gridlog_m %s %s %s)' % (q(a[0]), q(a[1]), nat(a[2]))
 
 
-OPS = {'get_av': _get_av, 'normalize': _normalize, 'conv': _conv, 'fmt_f': _fmt_f, 'gridlog': _gridlog, 'nkeep': _nkeep, 'rebin': _rebin, 'interp_clamp': _interp_clamp, 'mono': _mono, 'filter_table': _filter_table, 'rank': _rank,
+def _read_files(a):
+    row = lambda r: '(%s, %s)' % (z(r[0]), lst(q, r[1]))
+    return 'option_map (map (map (fun r => (fst r, map qz (snd r))))) (read_files (list Q) [] %s)' % lst(lambda f: lst(row, f), a[0])
+
+
+OPS = {'read_files': _read_files, 'get_av': _get_av, 'normalize': _normalize, 'conv': _conv, 'fmt_f': _fmt_f, 'gridlog': _gridlog, 'nkeep': _nkeep, 'rebin': _rebin, 'interp_clamp': _interp_clamp, 'mono': _mono, 'filter_table': _filter_table, 'rank': _rank,
        'sed_roundtrip': _sed_roundtrip, 'isub': _isub, 'ndist': _ndist, 'nearest': _nearest}
 
 HEADER = '''From Coq Require Import QArith ZArith List.
 Import ListNotations.
-From SedV Require Import Xnum Keep Keep0 PLin FilterOut FitModel Grid Table FTable TableProofs ConvolveM MonoM SedIO SedIOM Fmt.
+From SedV Require Import Xnum Keep Keep0 PLin FilterOut FitModel Grid Table FTable TableProofs ConvolveM MonoM SedIO SedIOM Fmt ReadM.
 Definition qz (x : Q) : Z * Z := let y := Qred x in (Qnum y, Zpos (Qden y)).
 '''
 
